@@ -183,7 +183,7 @@ func (t *sseClientTransport) start(ctx context.Context) error {
 	if resp.StatusCode != http.StatusOK {
 		body, _ := io.ReadAll(resp.Body)
 		resp.Body.Close()
-		return fmt.Errorf("unexpected status code: %d, body: %s", resp.StatusCode, string(body))
+		return fmt.Errorf("unexpected %w", &retry.StatusError{Code: resp.StatusCode, Body: string(body)})
 	}
 
 	// Check content type.
@@ -619,7 +619,7 @@ func (t *sseClientTransport) sendRequestInternal(ctx context.Context, req *JSONR
 	// Check response status.
 	if resp.StatusCode < 200 || resp.StatusCode >= 300 {
 		bodyBytes, _ := io.ReadAll(resp.Body)
-		return nil, fmt.Errorf("%w: status code %d, body: %s", ErrHTTPRequestFailed, resp.StatusCode, string(bodyBytes))
+		return nil, fmt.Errorf("%w: %w", ErrHTTPRequestFailed, &retry.StatusError{Code: resp.StatusCode, Body: string(bodyBytes)})
 	}
 
 	// In the SSE transport, the response should come via the SSE stream.
@@ -715,7 +715,7 @@ func (t *sseClientTransport) sendNotification(ctx context.Context, notification 
 	// Check response status (for notifications, servers typically return 202 Accepted)
 	if resp.StatusCode < 200 || resp.StatusCode >= 300 {
 		bodyBytes, _ := io.ReadAll(resp.Body)
-		return fmt.Errorf("%w: status code %d, body: %s", ErrHTTPRequestFailed, resp.StatusCode, string(bodyBytes))
+		return fmt.Errorf("%w: %w", ErrHTTPRequestFailed, &retry.StatusError{Code: resp.StatusCode, Body: string(bodyBytes)})
 	}
 
 	return nil
